@@ -144,8 +144,9 @@ def _should_skip(it, env):
 R.contract(GQ + "GraphQLSchema._should_skip", args={"self": Opq("Any"), "operation": Opq("Any")}, returns=_should_skip, trusted=True,
            note="C07 contracts: `not filter_set.match(operation)`: a function of the operation's label for name filters")
 R.spec_funcs["deselected"] = lambda it, label: __import__("pyvc.values", fromlist=["wrap"]).wrap(_skip_term(it, label))
-R.contract("schemathesis.schemas:APIOperation", abstract_only=True, args={}, returns=lambda it, env: __import__("pyvc.values", fromlist=["VObj"]).VObj(it.resolve_class("spec:DummyOperation"), {"label": env.get("label", "")}),
-           note="dataclass constructor (only `label` matters to the filters here)")
+R.contract("schemathesis.schemas:APIOperation", abstract_only=True, args={},
+           returns=lambda it, env: __import__("pyvc.values", fromlist=["VObj"]).VObj(it.resolve_class("spec:DummyOperation"), {k: env.get(k, "" if k == "label" else None) for k in ("label", "definition", "path", "method", "schema", "base_url")}),
+           note="dataclass constructor (stores its keyword arguments)")
 R.contract("schemathesis.schemas:BaseSchema.get_base_url", args={"self": Opq("Any")}, returns=Str, trusted=True, note="configured base URL")
 Field = lambda n: DictOf(required={"name": Const(n)})
 TypeDef = lambda name, fields: DictOf(required={"name": Const(name), "fields": fields})
@@ -173,6 +174,20 @@ R.contract(GQ + "GraphQLSchema._build_operation", args={"self": Opq("Any"), "roo
            returns=lambda it, env: __import__("pyvc.values", fromlist=["VObj"]).VObj(it.resolve_class("spec:DummyOperation"),
                                                                                 {"label": env["operation_type"].fields["name"] + "." + env["field_name"], "root": env["root_type"]}),
            trusted=True, effects={"built": "ghost('built') + [result.label]"}, note="the APIOperation for a root field: label `<Type>.<field>` (constructor)")
+R.contract(
+    GQ + "GraphQLSchema._build_operation",
+    variant="constructor",
+    prop="C20",
+    args={"self": Obj(GQ + "GraphQLSchema", base_path=Str, app=NoneT), "root_type": EnumOf(GQ + "RootType"), "operation_type": Obj("spec:GraphQLObjectType", name=Str), "field_name": Str, "field": Opq("GraphQLField")},
+    raises=[],
+    ensures={
+        # the label the filters and the statistic see is `<name of the root TYPE in this schema>.<field>` (the type may be called anything: `schema { query: MyQuery }`),
+        # the same spelling _measure_statistic counts with
+        "label_is_type_name_dot_field": "result.label == operation_type.name + '.' + field_name",
+        "definition_targets_the_field": "result.definition.field_name == field_name and result.definition.root_type is root_type and result.definition.type_ is operation_type and result.definition.raw is field",
+        "sent_as_post_to_the_schema_path": "result.method == 'POST' and result.path == self.base_path and result.schema is self",
+    },
+)
 Client = Obj("spec:ClientSchema", query_type=OneOf(NoneT, RootObj("Query", [(), ("a",), ("a", "b")])), mutation_type=OneOf(NoneT, RootObj("Mutation", [(), ("m",)])),
              subscription_type=OneOf(NoneT, RootObj("Subscription", [("s",)])))
 OFFERED = ("[t.name + '.' + f for t in (self.client_schema.query_type, self.client_schema.mutation_type) if t is not None for f in t.fields]")
